@@ -14,7 +14,7 @@ CHECKS = {
  "C14": dict(
   engine="E3 product enumerator",
   technique="exhaustive enumeration of Annex B streams (every NAL unit size, every start-code length pattern, content classes, all type sequences) against a byte-at-a-time reference scanner and the generating unit list",
-  text="Streams of 1-3 (thorough: 4) NAL units with every size 1..20 (26), every start-code length pattern in {3,4}^n and three content classes (filler, interior zeros, interior 00 00 03), plus all type sequences of length <= 4 over the AVC (1,5,6,7,8,9,12,14,20) and HEVC (0,1,16..23,32..40) type alphabets with the RAP range 16..23 as oracle, are pushed through ExtractNalusFromByteStream, ConvertByteStreamToNaluSample, ConvertSampleToByteStream, GetNalusFromSample, FindNaluTypes[UpToFirstVideo], ContainsNaluType, IsIDR/IsRAP, HasParameterSets, GetParameterSets[FromByteStream], ExtractNalusOfTypeFromByteStream and GetFirstAVCVideoNALUFromByteStream; every result must equal what the generating unit list implies; GetNaluType/IsVideoNaluType of both codecs over all 256 values.",
+  text="Streams of 1-3 (thorough: 4) NAL units with every size 1..20 (34), every start-code length pattern in {3,4}^n and three content classes (filler, interior zeros, interior 00 00 03), plus all type sequences of length <= 4 over the AVC (1,5,6,7,8,9,12,14,20) and HEVC (0,1,16..23,32..40) type alphabets with the RAP range 16..23 as oracle, are pushed through ExtractNalusFromByteStream, ConvertByteStreamToNaluSample, ConvertSampleToByteStream, GetNalusFromSample, FindNaluTypes[UpToFirstVideo], ContainsNaluType, IsIDR/IsRAP, HasParameterSets, GetParameterSets[FromByteStream], ExtractNalusOfTypeFromByteStream and GetFirstAVCVideoNALUFromByteStream; every result must equal what the generating unit list implies; GetNaluType/IsVideoNaluType of both codecs over all 256 values.",
   note="Well-formed streams only (units non-empty, emulation-free, last byte non-zero, NAL type 0 excluded). Sizes are bounded; the word-at-a-time scanner is exercised at every alignment modulo 8 and every tail length.",
   design="3 C14"),
  "C06": dict(
@@ -93,13 +93,13 @@ CHECKS = {
   engine="E3 product enumerator + overlay drivers + independent fragment reader",
   technique="exhaustive enumeration of generated inputs x every target duration x every tool mode; tools' own entry points run in-process; outputs re-parsed by an independent reader and compared sample by sample",
   text="Segmenter run() (single-track, -m, -lazy), Resegment(), MediaSegment.Fragmentify and combine-segs' combineInitSegments/combineMediaSegments are driven on every generated input (all sync subsets, duration tuples, chunkings, default modes, 32/64-bit mdat header, non-sync samples as P-picture or open-GOP I-picture flags) for every target duration from 1 tick to total+1; the concatenated per-track sample lists of all outputs (count, bytes, duration, flags, cto, decode time) are compared with the input, and every produced segment must start with a sync sample of the reference track.",
-  note="Inputs stay inside each tool's documented domain; tool errors are tallied, panics and silent differences are violations. Tracks have at most 5/6 samples, two tracks at most. Outputs are parsed by /verif/internal/ref/fragref (independent of mp4ff).",
+  note="Inputs stay inside each tool's documented domain; tool errors are tallied, panics and silent differences are violations. Tracks have at most 5/7 samples, two tracks at most. Outputs are parsed by /verif/internal/ref/fragref (independent of mp4ff).",
   design="3 C11"),
  "C10": dict(
   engine="E3 product enumerator + overlay driver",
   technique="exhaustive enumeration of generated progressive files x every crop duration in ms, tool's own cropMP4 run in-process, output re-parsed by an independent box walker and table expansion",
   text="Every generated file (all chunkings x sync subsets x duration tuples x table variants x 32/64-bit mdat header x tkhd duration understated; video+audio with every chunk merge order and two audio timescales) and tracks of 3-4 samples with durations over {2^31, 2^32-1, 1} at timescales 1000/90000/10^7 (cropped at the boundary set of milliseconds around every sample start) is cropped by the tool's unexported cropMP4 (overlay-injected test driver, /repo untouched) at every millisecond from 1 to total+2; each successful output is parsed by the independent walker/expansion and compared sample by sample (bytes, duration, cto, sync, sdtp, size), mdat tiling, chunk offsets and header durations.",
-  note="Only successful crops are judged (errors and panics of the tool are tallied in outcomes). Tracks have at most 5/6 samples; flag parsing of the command line is not exercised. The end time is computed exactly from the input tables.",
+  note="Only successful crops are judged (errors and panics of the tool are tallied in outcomes). Tracks have at most 5/7 samples; flag parsing of the command line is not exercised. The end time is computed exactly from the input tables.",
   design="3 C10"),
  "C08": dict(
   engine="E3 product enumerator",
@@ -110,7 +110,7 @@ CHECKS = {
  "C09": dict(
   engine="E3 product enumerator",
   technique="exhaustive enumeration of all run-length tables up to N samples, every query argument, vs naive per-sample expansion",
-  text="Every run-length encoding of every table for N <= 7 (quick) / 9 (thorough) samples is serialised by an independent raw writer, decoded by the library, and every query is asked for every sample number, every interval 1<=a<=b<=N and every time 0..total+1; answers are compared with the naive per-sample expansion. Combined queries (GetSampleData, GetRangesForSampleInterval, CopySampleData) run on generated files for all chunkings of N <= 5/6 samples x 8 table variants x 1-2 tracks; on the files with N <= 3/4 every ordered pair of queries is asked on a freshly decoded file and the second answer must equal the answer given alone (read-only queries are history independent).",
+  text="Every run-length encoding of every table for N <= 7 (quick) / 10 (thorough) samples is serialised by an independent raw writer, decoded by the library, and every query is asked for every sample number, every interval 1<=a<=b<=N and every time 0..total+1; answers are compared with the naive per-sample expansion. Combined queries (GetSampleData, GetRangesForSampleInterval, CopySampleData) run on generated files for all chunkings of N <= 5/7 samples x 8 table variants x 1-2 tracks; on the files with N <= 3/4 every ordered pair of queries is asked on a freshly decoded file and the second answer must equal the answer given alone (read-only queries are history independent).",
   note="Consistent tables only (as the statement says). Value alphabets are small plus boundaries ({1,2,3,2^31,2^32-1} durations/sizes, offsets {0,1,2,-1}); times for long tracks are the boundary set (every run edge +-1); GetTimeCode is compared in arbitrary precision; CopySampleData work buffers {0,1,2,3,4,6}; N is bounded. GetSampleNrAtTime reference follows the contract pinned by the repository's own unit test (N+1 strictly inside the last sample).",
   design="3 C09"),
  "C13": dict(
